@@ -378,6 +378,20 @@ impl<'a> ExpressionEvaluator<'a> {
         Ok(DataType::Blob(Blob::from(concatenated.as_str())))
     }
 
+    /// Integer division and remainder by zero panic in Rust: report them as evaluation errors.
+    fn check_divisor(divisor: &DataType) -> EvaluationResult<()> {
+        let is_integer = matches!(
+            divisor,
+            DataType::Int(_) | DataType::BigInt(_) | DataType::UInt(_) | DataType::BigUInt(_)
+        );
+        if is_integer && divisor.to_f64() == Some(0.0) {
+            return Err(EvaluationError::InvalidExpression(
+                "division by zero".to_string(),
+            ));
+        }
+        Ok(())
+    }
+
     fn eval_binary_op(
         &self,
         left: Vec<DataType>,
@@ -454,9 +468,11 @@ impl<'a> ExpressionEvaluator<'a> {
                     Ok(vec![left[0].mul(&right[0]).map_err(EvaluationError::from)?])
                 }
                 BinaryOperator::Divide => {
+                    Self::check_divisor(&right[0])?;
                     Ok(vec![left[0].div(&right[0]).map_err(EvaluationError::from)?])
                 }
                 BinaryOperator::Modulo => {
+                    Self::check_divisor(&right[0])?;
                     Ok(vec![left[0].rem(&right[0]).map_err(EvaluationError::from)?])
                 }
 
